@@ -143,14 +143,14 @@ def update(obj, spec, traces, data):
     return obj.update(traces, data)
 
 
-def results(obj, spec):
-    """Observable results after compute(), as a list of (label, array)."""
+def results(obj, spec, raw=False):
+    """Observable results after compute(), as a list of (label, array): private copies, or with raw=True the very objects handed out."""
     name = spec['name']
     if name == 'ttacc':
         obj.compute()
         return [('mean', np.array(obj.mean)), ('var', np.array(obj.var))]
     r = obj.compute()
-    out = [('compute', np.array(r))]
+    out = [('compute', r if raw and isinstance(r, np.ndarray) else np.array(r))]
     if name == 'tbuild':
         out.append(('pooled_covariance', np.array(obj.pooled_covariance)))
         out.append(('pooled_covariance_inv', np.array(obj.pooled_covariance_inv)))
